@@ -454,3 +454,7 @@ class FreeEnergy(InterpolatableFunction):
         # Now to construct the interpolation
         result = np.concatenate((fieldFullList, potentialEffFullList), axis=1)
         self.newInterpolationTableFromValues(TFullList, result)
+
+        # The traced table is the phase: direct evaluations must not extend it (they
+        # minimise from the starting guess and can land in another phase)
+        self.disableAdaptiveInterpolation()
